@@ -16,7 +16,7 @@
 (* loaded rule (clone, then optimise with a switch set; a reload).  All    *)
 (* share the case's denotation.                                            *)
 (***************************************************************************)
-EXTENDS Naturals, Sequences, FiniteSets, TLC, TauLang, TauCond
+EXTENDS Naturals, Sequences, FiniteSets, TLC, TauLang, TauCond, TauType
 
 VARIABLES
   cur,      \* current case: [src, docs, plan, ...]
@@ -65,6 +65,10 @@ WellTyped(c) == "wt" \in DOMAIN c /\ c.wt
 LoadOutcomes(c) == IF "src" \notin DOMAIN c THEN {"ok", "err"}
                    ELSE IF IsText(c.src) /\ "bodies_ok" \in DOMAIN c /\ c.bodies_ok
                    THEN (IF TextOk(c.src) THEN {"ok"} ELSE {"err"})     \* the grammar decides
+                   \* `typed`: the static semantics of the bodies (TauType) and the condition's own
+                   \* checks decide; the case's condition is a plain tree over defined identifiers
+                   ELSE IF "typed" \in DOMAIN c /\ c.typed
+                   THEN (IF BodiesOk(c.src) THEN {"ok"} ELSE {"err"})
                    ELSE IF WellTyped(c) THEN {"ok"} ELSE {"ok", "err"}
 Load(out) == /\ phase = "idle"
              /\ out \in LoadOutcomes(cur)
